@@ -70,7 +70,7 @@ def prove(hyps, goal, max_vars=40):
         goals = [to_sympy(e.children()[0], syms) - to_sympy(e.children()[1], syms) for e in _eqs(goal)]
     except NotPolynomial:
         return False
-    gens, nonzero, nonzero_polys = [], set(), []
+    gens, nonzero, nonzero_polys, pending = [], set(), [], []
     for h in hyps:
         hs = [h]
         if z3.is_and(h):
@@ -81,6 +81,7 @@ def prove(hyps, goal, max_vars=40):
                     p = sp.together(to_sympy(e.children()[0], syms) - to_sympy(e.children()[1], syms))
                     num, den = sp.fraction(p)
                     if den.free_symbols:
+                        pending.append((sp.expand(num), den))     # usable once the denominator is known to be non-zero
                         continue
                     gens.append(sp.expand(num))
                 elif e.decl().kind() in (z3.Z3_OP_GT, z3.Z3_OP_LT, z3.Z3_OP_DISTINCT) or (z3.is_not(e) and z3.is_eq(e.children()[0])):
@@ -99,6 +100,17 @@ def prove(hyps, goal, max_vars=40):
                                 nonzero.add(x.decl().name())
             except NotPolynomial:
                 continue
+    def _nonzero(den):
+        for fac, _ in sp.factor_list(den)[1]:
+            if fac.is_Symbol and fac.name in nonzero:
+                continue
+            if any(sp.rem(p, fac, *sorted(p.free_symbols | fac.free_symbols, key=str)) == 0 for p in nonzero_polys):
+                continue
+            return False
+        return True
+    for num, den in pending:
+        if _nonzero(den):
+            gens.append(num)           # num/den = 0 with den != 0  =>  num = 0
     allsyms = sorted({s for g in goals for s in g.free_symbols} | {s for g in gens for s in g.free_symbols}, key=str)
     if len(allsyms) > max_vars:
         return False
